@@ -1,9 +1,15 @@
 import XrsVerif.Proofs.Trim
+import XrsVerif.Gen.TrimFacts
 /-
   C18 -- trim and crop return the minimal window, cells and coordinates intact.
 
   Model: `Model/Trim.lean` (hand model of `_trim`, `_crop`, `trim`, `crop` of xrspatial/zonal.py as
-  repaired by fixes/D5-… and fixes/D16-…; tie = correspondence run, harness/corr_C18.py).
+  repaired by fixes/D5-… and fixes/D16-…).  Tie: (1) `Gen/TrimFacts.lean`, regenerated from the source by
+  harness/facts_trim.py on every run: the match predicate, direction and range of each of the eight scans,
+  the early empty return, and what the wrappers do to the value / id list and slice -- the theorems of the
+  first section require these to be the canonical shapes and prove that their interpretation
+  (`Trim.windowS`) is the hand model, and `trim_minimal` / `crop_minimal` are stated for that interpretation
+  of the *generated* shapes; (2) the correspondence run, harness/corr_C18.py.
   Rasters are functions `cell : Nat → Nat → Num` on `rows × cols`; `Num` has NaN, ±inf and exact
   rationals, and structural equality on `Num` is the NaN-aware equality.
 -/
@@ -12,6 +18,61 @@ namespace XrsVerif.C18
 open XrsVerif XrsVerif.Wire XrsVerif.Trim
 
 variable {κ τ : Type}
+
+/-! ### the source has the shape the model assumes (facts generated from the `ast`, Gen/TrimFacts.lean) -/
+
+/-- four scans: rows upwards, rows downwards, columns upwards, columns downwards, each over the whole axis with
+    an inner loop over every cell of the row / column, all with the same match predicate and polarity -/
+def canonicalScans (m : Match) (p : Polarity) : List ScanShape :=
+  [⟨true, .rows, .up, true, m, p⟩, ⟨true, .rows, .down, true, m, p⟩,
+   ⟨true, .cols, .up, true, m, p⟩, ⟨true, .cols, .down, true, m, p⟩]
+
+/-- the match predicates are exact: `_trim` tests `e == val or (isnan(e) and isnan(val))` in all four scans,
+    `_crop` tests `==` in all four -- never a call such as `np.isclose`, never an ordering -/
+theorem trim_match_is_exact :
+    Gen.trimKernel.scans.map (·.mtch) = [.eqOrBothNan, .eqOrBothNan, .eqOrBothNan, .eqOrBothNan]
+    ∧ Gen.cropKernel.scans.map (·.mtch) = [.eq, .eq, .eq, .eq] := by decide
+
+/-- direction, range and polarity of every scan, and the early empty return, are the canonical ones -/
+theorem kernels_are_canonical :
+    Gen.trimKernel = ⟨true, canonicalScans .eqOrBothNan .hitIfUnmatched, true⟩
+    ∧ Gen.cropKernel = ⟨true, canonicalScans .eq .hitIfMatched, true⟩ := by decide
+
+/-- the wrappers hand the caller's `values` / `zones_ids` to the kernel as they are: no cast, no re-binding
+    (a cast to the raster dtype would wrap NaN, negative, out-of-range and fractional entries onto cell values) -/
+theorem trim_values_not_cast : Gen.trimWrapper.listCast = .none ∧ Gen.cropWrapper.listCast = .none := by decide
+
+/-- `trim(raster, values, name)`: `_trim(raster.data, values)`, slice of `raster`;
+    `crop(zones, values, zones_ids, name)`: `_crop(zones.data, zones_ids)`, slice of `values`;
+    the slice is `[top: bottom + 1, left: right + 1]`, `.name = name`, returned -/
+theorem wrappers_are_canonical :
+    Gen.trimWrapper = ⟨true, "_trim", 0, 1, .none, 0, true, true⟩
+    ∧ Gen.cropWrapper = ⟨true, "_crop", 0, 2, .none, 1, true, true⟩ := by decide
+
+/-- `e == val or (isnan(e) and isnan(val))` is the NaN-aware (structural) equality -/
+theorem matchS_nanAware (e v : Num) : matchS .eqOrBothNan e v = (e == v) := by
+  simp only [matchS, ieeeEq]
+  by_cases he : e = Num.nan
+  · subst he
+    by_cases hv : v = Num.nan
+    · subst hv; decide
+    · have h1 : (v == Num.nan) = false := by simpa using hv
+      have h2 : (Num.nan == v) = false := by simpa using fun h : Num.nan = v => hv h.symm
+      simp [h1, h2]
+  · have h1 : (e == Num.nan) = false := by simpa using he
+    have h2 : (e != Num.nan) = true := by simpa using he
+    simp [h1, h2]
+
+/-- the interpretation of the shapes found in the source is the hand model -/
+theorem generated_trim_is_model (r : Raster κ τ) (ex : List Num) (name : String) :
+    windowS Gen.trimKernel Gen.trimWrapper r r ex name = trim r ex name := by
+  simp [windowS, Gen.trimKernel, Gen.trimWrapper, boundsS, scanS, hitS, dirRange, castS, matchS_nanAware, trim,
+    trimBounds, bounds, kept]
+
+theorem generated_crop_is_model (z v : Raster κ τ) (ids : List Num) (name : String) :
+    windowS Gen.cropKernel Gen.cropWrapper z v ids name = crop z v ids name := by
+  simp [windowS, Gen.cropKernel, Gen.cropWrapper, boundsS, scanS, hitS, dirRange, castS, matchS, crop, cropBounds,
+    bounds, selected]
 
 /-! ### which cells count -/
 
@@ -102,10 +163,11 @@ theorem window_empty (ra : Raster κ τ) (name : String) :
 
 /-! ### trim and crop -/
 
-/-- `trim`: the smallest window of the raster containing every cell whose value is not listed -/
+/-- `trim` -- as the shapes generated from the current source describe it -- returns the smallest window of the
+    raster containing every cell whose value is not listed -/
 theorem trim_minimal (ra : Raster κ τ) (excludes : List Num) (name : String) :
     ((∃ y x, y < ra.rows ∧ x < ra.cols ∧ ra.cell y x ∉ excludes) →
-      ∃ t b l r : Nat, trim ra excludes name = window ra ⟨t, b, l, r⟩ name
+      ∃ t b l r : Nat, windowS Gen.trimKernel Gen.trimWrapper ra ra excludes name = window ra ⟨t, b, l, r⟩ name
         ∧ t ≤ b ∧ b < ra.rows ∧ l ≤ r ∧ r < ra.cols
         ∧ (∀ y x, y < ra.rows → x < ra.cols → ra.cell y x ∉ excludes → Inside t b l r y x)
         ∧ (∃ x, x < ra.cols ∧ ra.cell t x ∉ excludes) ∧ (∃ x, x < ra.cols ∧ ra.cell b x ∉ excludes)
@@ -114,7 +176,10 @@ theorem trim_minimal (ra : Raster κ τ) (excludes : List Num) (name : String) :
             (∀ y x, y < ra.rows → x < ra.cols → ra.cell y x ∉ excludes → Inside t' b' l' r' y x) →
             t' ≤ t ∧ (b : Int) ≤ b' ∧ l' ≤ l ∧ (r : Int) ≤ r')
     ∧ ((∀ y x, y < ra.rows → x < ra.cols → ra.cell y x ∈ excludes) →
-        (trim ra excludes name).cells = [] ∧ (trim ra excludes name).ys = [] ∧ (trim ra excludes name).xs = []) := by
+        (windowS Gen.trimKernel Gen.trimWrapper ra ra excludes name).cells = []
+        ∧ (windowS Gen.trimKernel Gen.trimWrapper ra ra excludes name).ys = []
+        ∧ (windowS Gen.trimKernel Gen.trimWrapper ra ra excludes name).xs = []) := by
+  rw [generated_trim_is_model]
   have key := bounds_minimal ra.rows ra.cols (fun y x => kept excludes (ra.cell y x))
   simp only [kept_iff] at key
   constructor
@@ -131,10 +196,11 @@ theorem trim_minimal (ra : Raster κ τ) (excludes : List Num) (name : String) :
     simp only [trim, trimBounds, hb]
     exact ⟨this.1, this.2.1, this.2.2.1⟩
 
-/-- `crop`: the window of `values` spanning all cells of `zones` whose id is listed -/
+/-- `crop` -- as the shapes generated from the current source describe it -- returns the window of `values`
+    spanning all cells of `zones` whose id is listed -/
 theorem crop_minimal (zones values : Raster κ τ) (ids : List Num) (name : String) :
     ((∃ y x, y < zones.rows ∧ x < zones.cols ∧ selected ids (zones.cell y x) = true) →
-      ∃ t b l r : Nat, crop zones values ids name = window values ⟨t, b, l, r⟩ name
+      ∃ t b l r : Nat, windowS Gen.cropKernel Gen.cropWrapper zones values ids name = window values ⟨t, b, l, r⟩ name
         ∧ t ≤ b ∧ b < zones.rows ∧ l ≤ r ∧ r < zones.cols
         ∧ (∀ y x, y < zones.rows → x < zones.cols → selected ids (zones.cell y x) = true → Inside t b l r y x)
         ∧ (∃ x, x < zones.cols ∧ selected ids (zones.cell t x) = true)
@@ -145,8 +211,10 @@ theorem crop_minimal (zones values : Raster κ τ) (ids : List Num) (name : Stri
             (∀ y x, y < zones.rows → x < zones.cols → selected ids (zones.cell y x) = true → Inside t' b' l' r' y x) →
             t' ≤ t ∧ (b : Int) ≤ b' ∧ l' ≤ l ∧ (r : Int) ≤ r')
     ∧ ((∀ y x, y < zones.rows → x < zones.cols → selected ids (zones.cell y x) = false) →
-        (crop zones values ids name).cells = [] ∧ (crop zones values ids name).ys = []
-        ∧ (crop zones values ids name).xs = []) := by
+        (windowS Gen.cropKernel Gen.cropWrapper zones values ids name).cells = []
+        ∧ (windowS Gen.cropKernel Gen.cropWrapper zones values ids name).ys = []
+        ∧ (windowS Gen.cropKernel Gen.cropWrapper zones values ids name).xs = []) := by
+  rw [generated_crop_is_model]
   have key := bounds_minimal zones.rows zones.cols (fun y x => selected ids (zones.cell y x))
   constructor
   · intro h
@@ -229,6 +297,8 @@ example : (trim exRaster [Num.nan]).cells = [[Num.fin 5, Num.nan], [Num.nan, Num
     ∧ (trim exRaster [Num.nan]).ys = [11, 12] ∧ (trim exRaster [Num.nan]).xs = [21, 22] := by decide
 example : cropBounds exRaster [Num.fin 5] = ⟨1, 2, 1, 2⟩ := by decide
 example : trimBounds exRaster [Num.nan, Num.fin 5] = ⟨0, -1, 0, -1⟩ := by decide
+example : (windowS Gen.trimKernel Gen.trimWrapper exRaster exRaster [Num.nan] "t").cells
+    = [[Num.fin 5, Num.nan], [Num.nan, Num.fin 5]] := by decide
 example : ∃ y x, y < exRaster.rows ∧ x < exRaster.cols ∧ exRaster.cell y x ∉ [Num.nan] :=
   ⟨1, 1, by decide, by decide, by decide⟩
 
